@@ -30,6 +30,30 @@ def _moved_to_return(fn, d):
     return False
 
 
+def _checked_full(fn, counts):
+    """the count is compared with a non-constant length and one outcome can only fail (`if n != buf.len() { return Err }`)"""
+    from rules.pair import err_blocks
+    from vlib.mir import op_const
+    if not counts:
+        return False
+    watch = set(counts) | fn.forward_locals(counts)
+    eb = None
+    for loc, st in fn.iter_locs():
+        if st[0] == "a" and st[2][0] == "bin" and st[2][1] in ("Eq", "Ne", "Lt", "Le", "Gt", "Ge") and len(st[1]) == 1:
+            x, y = st[2][2], st[2][3]
+            for a, b in ((x, y), (y, x)):
+                if op_local(a) in watch and op_const(b) is None and op_local(b) is not None and op_local(b) not in watch:
+                    if eb is None:
+                        eb = err_blocks(fn)
+                    for sb in fn.blocks():
+                        t = fn.term(sb)
+                        if t[0] == "sw" and op_local(t[1]) == st[1][0]:
+                            succs = fn.succ(sb)
+                            if any(s in eb for s in succs) and any(s not in eb for s in succs):
+                                return True
+    return False
+
+
 def _sites(fx, fid, k, partial):
     fn = Fn(fx.raw(fid, k))
     out = []
@@ -40,7 +64,7 @@ def _sites(fx, fid, k, partial):
         d = c["d"][0]
         fw = fn.forward_locals([d]) | {d}
         counts = {l for l in fw if fn.ty(l) == "usize"}
-        ret = (bool(counts) and 0 in fn.forward_locals(counts)) or _moved_to_return(fn, d)
+        ret = (bool(counts) and 0 in fn.forward_locals(counts)) or _moved_to_return(fn, d) or _checked_full(fn, counts)
         if loops is None:
             loops = natural_loops(fn)
         out.append((fn, c, any(b in body for _, body in loops), ret))
